@@ -140,6 +140,27 @@ def main(inp, outp):
                 clause("velocities of the analytical Sun / Moon are the time derivative (central difference) of their positions",
                        np.linalg.norm(np.asarray(st, float)[3:] - vnum) <= 1e-9 * max(1.0, np.linalg.norm(vnum)), f"bodies/velocity[{name}]",
                        f"{name} at {dspec}: {np.asarray(st, float)[3:].tolist()} vs {vnum.tolist()}", {"date": dspec, "body": name})
+                # history: the state handed out is changed in place by its user (form, frame - as KeplerNum does with the states of
+                # its perturbing bodies); states asked for afterwards, at that date and at the dates of its difference stencil,
+                # are the same as before
+                before = {k: np.asarray(body.propagate(date + dstep * k).copy(form="cartesian"), float) for k in (-1, 0, 1)}
+                frame0 = body.propagate(date).frame.name
+                for k, (fo, frn) in zip((0, 1, -1), (("spherical", "EME2000"), ("keplerian", None), ("cartesian", "ITRF"))):
+                    victim = body.propagate(date + dstep * k)
+                    try:
+                        if frn:
+                            victim.frame = frn
+                        victim.form = fo
+                    except Exception:
+                        pass
+                after = {}
+                for k in (-1, 0, 1):
+                    o_ = body.propagate(date + dstep * k)
+                    after[k] = np.asarray(o_.copy(form="cartesian", frame=frame0), float)
+                res["evaluations"] += 1
+                worst = max(float(np.abs(after[k] - before[k]).max()) for k in before)
+                clause("states handed out by the analytical Sun / Moon can be changed in place without altering later results", worst == 0.0,
+                       f"bodies/history[{name}]", f"{name} at {dspec}: states asked again after in-place conversions differ by {worst:.4g}", {"date": dspec, "body": name})
                 # against the kernel (Earth -> body), both expressed in EME2000
                 plus = [k + 1 for k, (c, t) in enumerate(seglist) if (c, t) in ((0, 10), ) ] if name == "Sun" else [k + 1 for k, (c, t) in enumerate(seglist) if (c, t) == (3, 301)]
                 minus = [k + 1 for k, (c, t) in enumerate(seglist) if (c, t) in (((0, 3), (3, 399)) if name == "Sun" else ((3, 399),))]
